@@ -527,7 +527,11 @@ class Parser:
 
     def parse_integer_literal(self, stream: TokenStream) -> FilterExpression:
         # Convert to float first to handle scientific notation.
-        return IntegerLiteral(value=int(float(stream.current.value)))
+        try:
+            return IntegerLiteral(value=int(float(stream.current.value)))
+        except OverflowError:
+            # The exponent is too large for a float, same as `1.0e400`.
+            return FloatLiteral(value=float(stream.current.value))
 
     def parse_float_literal(self, stream: TokenStream) -> FilterExpression:
         return FloatLiteral(value=float(stream.current.value))
